@@ -70,6 +70,8 @@ def gen_pair_history(rnd):
         r = rnd.random()
         if r < 0.15:
             ops.append(('size', rnd.choice([0, 64, 100, 4096, 200])))
+            if rnd.random() < 0.5:
+                ops.append(('list', [], False))          # a block that carries only the size update
         elif r < 0.35:
             ks = rnd.sample(names[:8], rnd.randint(2, 6))          # dict with several pseudo-headers
             ops.append(('dict', [(k, rnd.choice(vals[:7])) for k in ks], rnd.random() < 0.5))
@@ -144,6 +146,8 @@ class Pair:
             RECV[:] = out
             got = self.d.decode(memoryview(RECV) if len(out) % 2 else RECV, raw=True)
             self.rec(('decoded', [(bytes(a).hex(), bytes(b).hex(), type(h).__name__) for h in got for a, b in [h]]))
+            if isinstance(got, list):      # the caller owns the returned list
+                got.append(('x-poison', 'p')); got.reverse()
             self.rec(('tables', [(bytes(a).hex(), bytes(b).hex()) for a, b in self.e.header_table.dynamic_entries],
                       self.e.header_table_size, self.d.header_table_size))
         except Exception as ex:
